@@ -22,6 +22,11 @@ class MPSReject(Exception):
     """The real CBC would refuse this file (no solution file is written)."""
 
 
+class NeedsRealCBC(Exception):
+    """The model has continuous columns with a range: its answers cannot be
+    enumerated; the solve is delegated to the real CBC (one answer only)."""
+
+
 class Problem:
     __slots__ = ("ncols", "colnames", "rows", "rownames", "obj", "lo", "hi",
                  "isint", "col_rows", "text_hash", "obj_scale")
@@ -146,10 +151,9 @@ def parse_mps(text):
             h = INF if h >= INF else int(math.floor(h + 1e-9))
         else:
             if l != h:
-                raise HarnessError(
-                    "FakeCBC: continuous column %s with range [%r,%r]" % (c, l, h))
+                raise NeedsRealCBC("continuous column %s with range [%r,%r]" % (c, l, h))
             if abs(l - round(l)) > 1e-9:
-                raise HarnessError("FakeCBC: fractional fixed column")
+                raise NeedsRealCBC("fractional fixed column %s" % c)
             l = h = int(round(l))
         if l > h:
             # CBC: "MODEL read with 1 errors ... Current model not valid"
@@ -437,6 +441,8 @@ class Context:
         self.last_text = None
         self.keep_mps = False
         self.read_log = None
+        self.delegated = 0
+        self.observe_all = False
 
 
 CTX = Context()
@@ -457,6 +463,8 @@ def solve_text(text, observed, maximize):
         val = (p, r, None)
     except MPSReject as e:
         val = (None, None, str(e))
+    except NeedsRealCBC as e:
+        val = (None, None, "delegate:" + str(e))
     if len(_MEMO) >= _MEMO_MAX:
         _MEMO.clear()
     _MEMO[key] = val
@@ -476,6 +484,10 @@ def _observed_indices():
                 want.add(id(v))
     for v in getattr(m, "project_closures", []) or []:
         want.add(id(v))
+    if CTX.observe_all:
+        # certificate failed (a getter read an auxiliary variable): every
+        # optimal FULL point is a class of its own
+        return list(range(len(vs))), vs
     return [i for i, v in enumerate(vs) if id(v) in want], vs
 
 
@@ -508,6 +520,17 @@ def fake_cbc_main(args):
     CTX.last_problem = p
     if CTX.read_log is not None:
         rec["reads_before"] = CTX.read_log.flush()
+    if reject is not None and reject.startswith("delegate:"):
+        # not enumerable: ask the real CBC (a single answer, no alternatives)
+        import subprocess as _sp
+        rec["answer"] = "delegated-to-real-cbc"
+        CTX.delegated += 1
+        with open(os.devnull, "w") as dn:
+            rc = _REAL_SUBPROCESS.Popen(args, stdout=dn, stderr=dn,
+                                        stdin=_sp.DEVNULL).wait()
+        if CTX.clock is not None:
+            CTX.clock.advance_us(1000)
+        return rc
     if reject is not None:
         rec["answer"] = "reject:" + reject
         if CTX.clock is not None:
